@@ -10,8 +10,10 @@ import (
 
 	"github.com/agglayer/aggkit/bridgesync"
 	aggsync "github.com/agglayer/aggkit/sync"
+	treetypes "github.com/agglayer/aggkit/tree/types"
 	"github.com/ethereum/go-ethereum/common"
 
+	"verifharness/iofault"
 	"verifharness/names"
 	"verifharness/tr"
 )
@@ -391,10 +393,23 @@ func (k *bridgeKind) snapshot() tr.M {
 				continue
 			}
 			at := 1 + rng.Intn(140)
-			armAuth(k.dbPath(), -1, at)
-			pr, err := k.node.GetProof(ctx, uint32(p), r.Hash)
-			fired, _ := disarmAuth()
-			m := tr.M{"r": i, "p": p, "c": classify(err), "fired": fired, "at": at}
+			var pr treetypes.Proof
+			var fired bool
+			how := "auth"
+			if q%2 == 1 {
+				// the disk fails while the statement runs (rows.Next / Scan), not while it is compiled
+				how, at = "io", 1+rng.Intn(6)
+				if err := iofault.Arm(k.dbPath(), iofault.Read, at); err != nil {
+					panic(err)
+				}
+				pr, err = k.node.GetProof(ctx, uint32(p), r.Hash)
+				fired, _ = iofault.Disarm()
+			} else {
+				armAuth(k.dbPath(), -1, at)
+				pr, err = k.node.GetProof(ctx, uint32(p), r.Hash)
+				fired, _ = disarmAuth()
+			}
+			m := tr.M{"r": i, "p": p, "c": classify(err), "fired": fired, "at": at, "how": how}
 			if err == nil {
 				sib := [][]any{}
 				for h, hsh := range pr {
